@@ -144,7 +144,9 @@ def book(k):
 
 contract(A + "__should_stop__", params=dict(current_error="float"), returns="bool",
          requires=VALID_CFG + ["self._current_cycle >= 1"] + book("self._current_cycle")
-         + ["current_error == self._errors[self._current_cycle - 1]"],
+         + ["current_error == self._errors[self._current_cycle - 1]",
+            # the first difference is taken against 0 (ground instance of the book-keeping clause, stated for the solver)
+            "self._error_diffs[0] == self._errors[0] and self._errors[0] >= 0"],
          ensures=[("stops-exactly-when-a-criterion-holds",
                    "result == Stop(self, self._current_cycle, self._errors)"),
                   ("pure", "heap_unchanged()")],
